@@ -32,6 +32,10 @@ func checkC02(c *Check) {
 	ruleChunkAccounting(c, p, "R02.16")
 	ruleReadContract(c, p, "R02.16")
 	c.RuleDoc["R02.16"] = "chunking arithmetic of Writer.Write and Reader.Read (bounds prover): counts, cursor stores, no panic"
+	ruleNoEmptyBlock(c, p, "R02.17", "")
+	c.RuleDoc["R02.17"] = "no empty data block is emitted (= R09.14): its size word is the end mark, and the sequential Reader takes a zero-length block for 'block left in its own buffer' and hands out stale bytes"
+	ruleInitTransition(c, p, "R02.18")
+	c.RuleDoc["R02.18"] = "the first-use initialisation is followed by the state transition on every path (= R17.10): otherwise the header is written twice and the frame no longer decodes"
 	ruleOwnBufferNotAliased(c, p, "R02.15")
 	c.RuleDoc["R02.15"] = "the Reader's block buffer never becomes the caller's buffer"
 	ruleLegacyDescriptor(c, p, "R02.14")
@@ -66,6 +70,8 @@ func checkC08(c *Check) {
 	ruleOrderingGoroutineLatch(c, p, "R08.10")
 	ruleContentHashDiscipline(c, p, "R08.11")
 	ruleContentHashFeed(c, p, "R08.12")
+	ruleCollectorStopsAfterFailure(c, p, "R08.17")
+	c.RuleDoc["R08.17"] = "the collector of the concurrent decoder forwards nothing after a failed block (finite-state exploration of its loop)"
 	ruleCloseWAlwaysCloses(c, p, "R08.15")
 	c.RuleDoc["R08.15"] = "Frame.CloseW performs the pipeline shutdown on every path"
 	ruleNoDoubleRelease(c, p, "R08.16")
